@@ -111,4 +111,88 @@ theorem rateParamOld_eq (n sn dn : Nat) (h : dn ≠ n ∨ sn < 10) : rateParamOl
 example : rateOf 5 (rateParam 5 2 3) = some (.flow 2 3) := rate_name_roundtrip 5 2 3 (by decide) (by decide) (by decide)
 example : rateParam 11 9 10 = "K9T10" ∧ rateParam 11 10 9 = "K10T9" ∧ rateParam 10 9 10 = "K90" := by decide
 
+theorem digits_two {k : Nat} (h1 : 10 ≤ k) (h2 : k < 100) : digits k = [Nat.digitChar (k / 10), Nat.digitChar (k % 10)] := by
+  unfold digits
+  rw [Nat.toDigits_of_base_le (by decide) h1, Nat.toDigits_of_lt_base (by omega)]
+  rfl
+
+theorem natOf_dc (a : Nat) (h : a < 10) : natOf [Nat.digitChar a] = a := by
+  interval_cases a <;> rfl
+theorem natOf_dc2 (a b : Nat) (ha : a < 10) (hb : b < 10) : natOf [Nat.digitChar a, Nat.digitChar b] = 10 * a + b := by
+  interval_cases a <;> interval_cases b <;> rfl
+
+/-- three digits `a b c`: the decoding is the first reading, the second reading, ambiguous or skip, as the code says. -/
+theorem decode_three (n a b c : Nat) (ha : a < 10) (hb : b < 10) (hc : c < 10) :
+    decode n [Nat.digitChar a, Nat.digitChar b, Nat.digitChar c] none =
+      (let q1 := decide (a ≤ n) && decide (10 * b + c ≤ n) && (10 * b + c != 0)
+       let q2 := decide (10 * a + b ≤ n) && decide (c ≤ n)
+       if q1 && q2 then .ambiguous else if q1 then fin n a (10 * b + c) else if q2 then fin n (10 * a + b) c else .skip) := by
+  simp only [decode, natOf_dc a ha, natOf_dc c hc, natOf_dc2 a b ha hb, natOf_dc2 b c hb hc]
+
+theorem all_dc (l : List Nat) (h : ∀ x ∈ l, x < 10) : (l.map Nat.digitChar).all Char.isDigit = true := by
+  induction l with
+  | nil => rfl
+  | cons a t ih =>
+    have ha := h a (List.mem_cons_self)
+    have : (Nat.digitChar a).isDigit = true := by interval_cases a <;> rfl
+    simp only [List.map_cons, List.all_cons, this, Bool.true_and]
+    exact ih (fun x hx => h x (List.mem_cons_of_mem _ hx))
+
+/-- **Synonyms never name another flow (fewer than 100 compartments).**  The bare spelling `K{sn}{dn}` under which
+    `add_rate_assignment_if_missing` also recognises an existing rate is read by `_find_rates` as the flow `sn → dn`
+    or refused as ambiguous — never as a different flow and never ignored. -/
+theorem bare_synonym_sound (n sn dn : Nat) (hn : n < 100) (hs : 1 ≤ sn) (hsn : sn ≤ n) (hd : 1 ≤ dn) (hdn : dn ≤ n) :
+    rateOf n (String.ofList ('K' :: (digits sn ++ digits dn))) = some (.flow sn dn) ∨
+    rateOf n (String.ofList ('K' :: (digits sn ++ digits dn))) = some .ambiguous := by
+  have hd0 : (dn == 0) = false := by simp; omega
+  by_cases h1 : sn < 10 <;> by_cases h2 : dn < 10
+  · left
+    rw [digits_lt10 h1, digits_lt10 h2]
+    have := rateOf_two n sn dn h1 h2
+    simpa [fin, hd0] using this
+  · have hdn2 := digits_two (k := dn) (by omega) (by omega)
+    rw [digits_lt10 h1, hdn2]
+    have hall := all_dc [sn, dn / 10, dn % 10] (by intro x hx; simp at hx; omega)
+    have := rateOf_bare n [Nat.digitChar sn, Nat.digitChar (dn / 10), Nat.digitChar (dn % 10)] hall (by simp)
+    simp only [List.cons_append, List.nil_append]
+    rw [this, decode_three n sn (dn / 10) (dn % 10) h1 (by omega) (by omega)]
+    have e : 10 * (dn / 10) + dn % 10 = dn := by omega
+    simp only [e]
+    have q1 : (decide (sn ≤ n) && decide (dn ≤ n) && (dn != 0)) = true := by simp; omega
+    simp only [q1, Bool.true_and]
+    by_cases q2 : (decide (10 * sn + dn / 10 ≤ n) && decide (dn % 10 ≤ n)) = true
+    · right; simp [q2]
+    · left; simp [q2, fin, hd0]
+  · have hsn2 := digits_two (k := sn) (by omega) (by omega)
+    rw [digits_lt10 h2, hsn2]
+    have hall := all_dc [sn / 10, sn % 10, dn] (by intro x hx; simp at hx; omega)
+    have := rateOf_bare n [Nat.digitChar (sn / 10), Nat.digitChar (sn % 10), Nat.digitChar dn] hall (by simp)
+    simp only [List.cons_append, List.nil_append]
+    rw [this, decode_three n (sn / 10) (sn % 10) dn (by omega) (by omega) h2]
+    have e : 10 * (sn / 10) + sn % 10 = sn := by omega
+    simp only [e]
+    have q2 : (decide (sn ≤ n) && decide (dn ≤ n)) = true := by simp; omega
+    simp only [q2, Bool.and_true]
+    by_cases q1 : (decide (sn / 10 ≤ n) && decide (10 * (sn % 10) + dn ≤ n) && (10 * (sn % 10) + dn != 0)) = true
+    · right; simp [q1]
+    · left; simp [q1, fin, hd0]
+  · left
+    have hsn2 := digits_two (k := sn) (by omega) (by omega)
+    have hdn2 := digits_two (k := dn) (by omega) (by omega)
+    rw [hsn2, hdn2]
+    have hall := all_dc [sn / 10, sn % 10, dn / 10, dn % 10] (by intro x hx; simp at hx; omega)
+    have := rateOf_bare n [Nat.digitChar (sn / 10), Nat.digitChar (sn % 10), Nat.digitChar (dn / 10), Nat.digitChar (dn % 10)] hall (by simp)
+    simp only [List.cons_append, List.nil_append]
+    rw [this]
+    simp only [decode, natOf_dc2 _ _ (show sn / 10 < 10 by omega) (show sn % 10 < 10 by omega),
+      natOf_dc2 _ _ (show dn / 10 < 10 by omega) (show dn % 10 < 10 by omega)]
+    have e1 : 10 * (sn / 10) + sn % 10 = sn := by omega
+    have e2 : 10 * (dn / 10) + dn % 10 = dn := by omega
+    simp [e1, e2, fin, hd0]
+
+/-- The ambiguous outcome does occur (twelve compartments and the output: `K112` for 1 → 12 or 11 → 2). -/
+theorem bare_synonym_ambiguous_witness :
+    rateOf 13 (String.ofList ('K' :: (digits 1 ++ digits 12))) = some .ambiguous ∧
+    String.ofList ('K' :: (digits 1 ++ digits 12)) = String.ofList ('K' :: (digits 11 ++ digits 2)) := by decide
+
 end Pharmpy.C02.RateName
